@@ -252,9 +252,9 @@ def check_insert(ctx, prog, fn):
                 problems.append('the insertion is not inside the loop over the mask bits')
     sig = 'insert(place-mask agreement)'
     if problems:
-        ctx.add(RULE, fn, sig, 'violation', '; '.join(problems[:3]), PROPS, line)
+        ctx.add(RULE, fn, sig, 'violation', '; '.join(problems[:3]), PROPS + ['C15'], line)
     else:
-        ctx.add(RULE, fn, sig, 'ok', 'one copy per bit of the place mask of (min, max); the copies carry that same mask', PROPS, line)
+        ctx.add(RULE, fn, sig, 'ok', 'one copy per bit of the place mask of (min, max); the copies carry that same mask', PROPS + ['C15'], line)
 
 
 # ---- 2 ---------------------------------------------------------------------------------------------
@@ -297,9 +297,9 @@ def check_query(ctx, prog, fn):
                         problems.append('the iterator\'s time is not the query\'s time parameter')
     sig = 'query(visit-mask agreement)'
     if problems:
-        ctx.add(RULE, fn, sig, 'violation', '; '.join(problems[:3]), PROPS, line)
+        ctx.add(RULE, fn, sig, 'violation', '; '.join(problems[:3]), PROPS + ['C15'], line)
     else:
-        ctx.add(RULE, fn, sig, 'ok', 'the visit mask of (min, max) feeds both the bit iterator and the de-duplication mask; time passed through', PROPS, line)
+        ctx.add(RULE, fn, sig, 'ok', 'the visit mask of (min, max) feeds both the bit iterator and the de-duplication mask; time passed through', PROPS + ['C15'], line)
 
 
 # ---- 3..6 --------------------------------------------------------------------------------------------
